@@ -463,6 +463,40 @@ func (m *MRealm) Meta(s int, req wamp.ID, proc string, args wamp.List, kw wamp.D
 			parts = append(parts, fmt.Sprintf("%s:%s:%s", symP(e.PubSym), e.Topic, payload(e.Args, e.Kw)))
 		}
 		return res("events:[" + strings.Join(parts, " ") + "]"), histRender(req), nil
+	case "wamp.session.modify_details":
+		// changes a session's attributes: from then on filters, role filters, kills by
+		// attribute, disclosure and wamp.session.get go by the new values
+		if !m.MetaModify {
+			return metaErr(req, "wamp.error.no_such_procedure"), nil, nil
+		}
+		if len(args) < 2 {
+			return metaErr(req, "wamp.error.invalid_argument"), nil, nil
+		}
+		delta, okd := wamp.AsDict(args[1])
+		_, isID := wamp.AsID(args[0])
+		_, hasSess := delta["session"]
+		badArg := !okd || !isID || hasSess
+		r0, ok := ref(0, "sess")
+		noSess := !ok || r0.Sym < 0 || m.Sess[r0.Sym] == nil || !m.Sess[r0.Sym].Alive
+		switch {
+		case badArg && noSess && isID:
+			return metaErr(req, "wamp.error.invalid_argument") + "|" + metaErr(req, "wamp.error.no_such_session"), nil, nil
+		case badArg:
+			return metaErr(req, "wamp.error.invalid_argument"), nil, nil
+		case noSess:
+			return metaErr(req, "wamp.error.no_such_session"), nil, nil
+		}
+		x := m.Sess[r0.Sym]
+		for k, v := range delta {
+			if v == nil {
+				delete(x.Details, k)
+				continue
+			}
+			if sv, ok := wamp.AsString(v); ok {
+				x.Details[k] = sv
+			}
+		}
+		return res("ok"), plain(func(b *Binder, r *wamp.Result) string { return "ok" }), nil
 	case "wamp.session.add_testament":
 		if len(args) < 3 {
 			return metaErr(req, "wamp.error.invalid_argument"), nil, nil
